@@ -76,6 +76,16 @@ def build_harness(features=()):
     return bindir
 
 
+class Died(Exception):
+    """The harness process died (signal / panic / abort) while running the code under test, without a
+    report: that is an observation about the code, reported as a violation by the driver."""
+    def __init__(self, why, p):
+        super().__init__(why)
+        self.why = why
+        self.stdout = p.stdout[-1500:] if p.stdout else ""
+        self.stderr = p.stderr[-3000:] if p.stderr else ""
+
+
 def died(p):
     """A harness process killed by a signal or by a panic of the code under test: data, not a tool error."""
     if p.returncode < 0:
